@@ -192,7 +192,7 @@ pub fn monitor(tier: Tier) -> Monitor {
             "need = the largest window length reported by the hook in the unlimited run; a warning is recorded if it differs from min(dict, produced)".into(),
             "allocator bound is deliberately loose (3 x limit + literal table + 1 MiB): Vec growth doubles".into(),
         ],
-        families: vec![Family { name: "limits", count: tier.pick(3_000, 150_000), priority: false, enumerated: false, run: fam_limits }],
+        families: vec![Family { name: "limits", count: tier.pick(6_000, 200_000), priority: false, enumerated: false, run: fam_limits }],
         label,
         floors,
         summarize: no_summary,
